@@ -70,6 +70,18 @@ CLAIMS = {
             "Not decided: chunk reference counts across drop orders, use-after-free under adversarial histories "
             "(needs execution). Trusted: rustc front end, svfacts, reviewed owner-paired table.",
             "DESIGN.md section 2, C13"),
+    "C04": ("K3 field coverage of every FreezeBranded::freeze body + MIR dominance (freeze protocol) + receiver "
+            "provenance (backward slice) for list mutators + unsafe-Sync cell writer-set inventory",
+            "Structural clauses only: every FreezeBranded::freeze consumes each value-bearing field and freezes children; "
+            "heap_freeze forwards before freezing children and fills before Ok; Module::freeze_impl consumes all fields, "
+            "freezes slots/extra_value, runs post_freeze after allocating the module data, and post_freeze optimises "
+            "against the def's declaring module; every external call of a ListData/Array mutator has a receiver that "
+            "comes from from_value_mut (check_can_mutate dominated, unfrozen downcast), a fresh allocation, or the "
+            "comprehension handler; unchecked accessors have one caller; DictMut/SetMut only from a successful "
+            "try_borrow_mut; UnsafeCell fields of unsafe-Sync types have reviewed complete writer sets.",
+            "Not decided: value equality before/after freeze, hash stability, atomicity of failed mutations. Trusted: "
+            "rustc front end, svfacts, value-bearing type predicate, reviewed writer table.",
+            "DESIGN.md section 2, C04"),
 }
 
 
